@@ -67,8 +67,6 @@ structure WInv (cfg : Cfg) (w : Worker) : Prop where
     (match w.pc with | .get | .lockAcq | .putNowait | .lockRel | .putBlock => w.done < q | _ => True)
   bfLog : w.bf = true → WEv.begin ∈ w.log
   bfPre : (w.pc = .notStarted ∨ w.pc = .bfClear) → w.bf = false
-  /-- `end()` is a step of its own only with a finite join timeout -/
-  ending : w.pc = .ending → cfg.joinTimeout = true
 
 theorem WInv.lifeOk {cfg : Cfg} {w : Worker} (h : WInv cfg w) : LifeOk cfg w := by
   refine ⟨?_, fun q hq => (h.bound q hq).1⟩
@@ -89,37 +87,36 @@ theorem itemCount_end (l : List WEv) : ((l ++ [WEv.end_]).filter isItem).length 
   simp [List.filter_append, this]
 
 theorem WInv_begin_crash {cfg : Cfg} {w : Worker} (h : WInv cfg w) (hpc : w.pc = .bfClear) :
-    WInv cfg (workerExit { w with bf := false, log := w.log ++ [.begin] } true) := by
-  obtain ⟨h1, h2, h3, h4, h5, h6, h7⟩ := h
+    WInv cfg (workerEnding { w with bf := false, log := w.log ++ [.begin] } true) := by
+  obtain ⟨h1, h2, h3, h4, h5, h6⟩ := h
   simp only [hpc] at h1 h2
-  refine ⟨?_, ?_, ?_, ?_, ?_, ?_, ?_⟩ <;> dsimp only [workerExit]
+  refine ⟨?_, ?_, ?_, ?_, ?_, ?_⟩ <;> dsimp only [workerEnding]
   · exact ⟨[], by simp, by simp [h1]⟩
   · exact h3
   · intro q hq; refine ⟨?_, trivial⟩; simp [itemCount, h1, isItem]
   · simp
   · simp
-  · intro hh; first | cases hh | (rw [hh] at hm'; cases hm')
 
 theorem WInv_begin_ok {cfg : Cfg} {w : Worker} (h : WInv cfg w) (hpc : w.pc = .bfClear) :
     WInv cfg { w with bf := false, log := w.log ++ [.begin], pc := .bfSet } := by
-  obtain ⟨h1, h2, h3, h4, h5, h6, h7⟩ := h
+  obtain ⟨h1, h2, h3, h4, h5, h6⟩ := h
   simp only [hpc] at h1 h2
-  refine ⟨?_, ?_, ?_, ?_, ?_, ?_, ?_⟩ <;> dsimp only
+  refine ⟨?_, ?_, ?_, ?_, ?_, ?_⟩ <;> dsimp only
   · exact ⟨[], by simp, by simp [h1]⟩
   · exact ⟨h2.1, by simp [itemCount, h1, isItem]⟩
   · exact h3
   · intro q hq; refine ⟨?_, trivial⟩; simp [itemCount, h1, isItem]
   · simp
   · simp
-  · intro hh; first | cases hh | (rw [hh] at hm'; cases hm')
 
-theorem WInv_get_none {cfg : Cfg} {w : Worker} (h : WInv cfg w) (hpc : w.pc = .get ∨ w.pc = .retire ∨ w.pc = .ending) :
-    WInv cfg (workerExit w false) := by
-  obtain ⟨h1, h2, h3, h4, h5, h6, h7⟩ := h
+/-- the `.ending` step: `end()` is logged, the process exits -/
+theorem WInv_get_none {cfg : Cfg} {w : Worker} (c : Bool) (h : WInv cfg w) (hpc : w.pc = .ending) :
+    WInv cfg (workerExit w c) := by
+  obtain ⟨h1, h2, h3, h4, h5, h6⟩ := h
   have e1 : ∃ items, (∀ e ∈ items, isItem e = true) ∧ w.log = .begin :: items := by
-    rcases hpc with hpc | hpc | hpc <;> simp only [hpc] at h1 <;> exact h1
+    simp only [hpc] at h1; exact h1
   obtain ⟨items, hi, hl⟩ := e1
-  refine ⟨?_, ?_, ?_, ?_, ?_, ?_, ?_⟩ <;> dsimp only [workerExit]
+  refine ⟨?_, ?_, ?_, ?_, ?_, ?_⟩ <;> dsimp only [workerExit]
   · exact ⟨items, hi, by rw [hl]⟩
   · exact h3
   · intro q hq; refine ⟨?_, trivial⟩
@@ -127,27 +124,26 @@ theorem WInv_get_none {cfg : Cfg} {w : Worker} (h : WInv cfg w) (hpc : w.pc = .g
     unfold itemCount at *; dsimp only; rw [itemCount_end]; exact this
   · intro _; simp [hl]
   · simp
-  · intro hh; first | cases hh | (rw [hh] at hm'; cases hm')
 
-/-- (`Cfg.joinTimeout`) the wid has been posted, `end()` is still to run -/
-theorem WInv_retire_ending {cfg : Cfg} {w : Worker} (h : WInv cfg w) (hpc : w.pc = .retire) (hjt : cfg.joinTimeout = true) :
-    WInv cfg { w with pc := .ending } := by
-  obtain ⟨h1, h2, h3, h4, h5, h6, h7⟩ := h
-  simp only [hpc] at h1
-  refine ⟨?_, ?_, ?_, ?_, ?_, ?_, ?_⟩ <;> dsimp only
-  · exact h1
+/-- the stop order has been taken / the wid has been posted: `end()` is still to run -/
+theorem WInv_retire_ending {cfg : Cfg} {w : Worker} (h : WInv cfg w) (hpc : w.pc = .get ∨ w.pc = .retire) :
+    WInv cfg (workerEnding w false) := by
+  obtain ⟨h1, h2, h3, h4, h5, h6⟩ := h
+  have e1 : ∃ items, (∀ e ∈ items, isItem e = true) ∧ w.log = .begin :: items := by
+    rcases hpc with hpc | hpc <;> simp only [hpc] at h1 <;> exact h1
+  refine ⟨?_, ?_, ?_, ?_, ?_, ?_⟩ <;> dsimp only [workerEnding]
+  · exact e1
   · exact h3
   · intro q hq; exact ⟨(h4 q hq).1, trivial⟩
   · exact h5
   · intro hh; rcases hh with hh | hh <;> cases hh
-  · intro _; exact hjt
 
 theorem WInv_item_crash {cfg : Cfg} {w : Worker} (i : Nat) (h : WInv cfg w) (hpc : w.pc = .get) :
-    WInv cfg (workerExit { w with log := w.log ++ [.item i] } true) := by
-  obtain ⟨h1, h2, h3, h4, h5, h6, h7⟩ := h
+    WInv cfg (workerEnding { w with log := w.log ++ [.item i] } true) := by
+  obtain ⟨h1, h2, h3, h4, h5, h6⟩ := h
   simp only [hpc] at h1 h2
   obtain ⟨items, hi, hl⟩ := h1
-  refine ⟨?_, ?_, ?_, ?_, ?_, ?_, ?_⟩ <;> dsimp only [workerExit]
+  refine ⟨?_, ?_, ?_, ?_, ?_, ?_⟩ <;> dsimp only [workerEnding]
   · refine ⟨items ++ [.item i], ?_, by rw [hl]; simp⟩
     intro e he; rcases List.mem_append.1 he with he | he
     · exact hi e he
@@ -155,17 +151,16 @@ theorem WInv_item_crash {cfg : Cfg} {w : Worker} (i : Nat) (h : WInv cfg w) (hpc
   · exact h3
   · intro q hq; refine ⟨?_, trivial⟩
     have := h4 q hq; simp only [hpc] at this
-    unfold itemCount at *; dsimp only; rw [itemCount_end, itemCount_item]; omega
+    unfold itemCount at *; dsimp only; rw [itemCount_item]; omega
   · intro _; simp [hl]
   · simp
-  · intro hh; first | cases hh | (rw [hh] at hm'; cases hm')
 
 theorem WInv_item_ok {cfg : Cfg} {w : Worker} (i : Nat) (h : WInv cfg w) (hpc : w.pc = .get) :
     WInv cfg { w with log := w.log ++ [.item i], held := some i, pc := .lockAcq } := by
-  obtain ⟨h1, h2, h3, h4, h5, h6, h7⟩ := h
+  obtain ⟨h1, h2, h3, h4, h5, h6⟩ := h
   simp only [hpc] at h1 h2
   obtain ⟨items, hi, hl⟩ := h1
-  refine ⟨?_, ?_, ?_, ?_, ?_, ?_, ?_⟩ <;> dsimp only
+  refine ⟨?_, ?_, ?_, ?_, ?_, ?_⟩ <;> dsimp only
   · refine ⟨items ++ [.item i], ?_, by rw [hl]; simp⟩
     intro e he; rcases List.mem_append.1 he with he | he
     · exact hi e he
@@ -177,7 +172,6 @@ theorem WInv_item_ok {cfg : Cfg} {w : Worker} (i : Nat) (h : WInv cfg w) (hpc : 
     unfold itemCount at *; dsimp only; rw [itemCount_item]; omega
   · intro hb; have := h5 hb; simp [this]
   · simp
-  · intro hh; first | cases hh | (rw [hh] at hm'; cases hm')
 
 def midPc : WPc → Bool
   | .lockAcq | .putNowait | .lockRel | .putBlock => true
@@ -186,7 +180,7 @@ def midPc : WPc → Bool
 theorem WInv_mid {cfg : Cfg} {w w' : Worker} (h : WInv cfg w) (hm : midPc w.pc = true) (hm' : midPc w'.pc = true)
     (hl : w'.log = w.log) (hd : w'.done = w.done) (hq : w'.quota = w.quota) (hb : w'.bf = w.bf) : WInv cfg w' := by
   have hic : itemCount w' = itemCount w := by unfold itemCount; rw [hl]
-  obtain ⟨h1, h2, h3, h4, h5, h6, h7⟩ := h
+  obtain ⟨h1, h2, h3, h4, h5, h6⟩ := h
   have e1 : ∃ items, (∀ e ∈ items, isItem e = true) ∧ w.log = .begin :: items := by
     cases hpc : w.pc <;> simp only [hpc, midPc] at hm h1 <;> first | exact h1 | cases hm
   have e2 : itemCount w = w.done + 1 := by
@@ -194,7 +188,7 @@ theorem WInv_mid {cfg : Cfg} {w w' : Worker} (h : WInv cfg w) (hm : midPc w.pc =
   have e4 : ∀ q, cfg.quota = some q → itemCount w ≤ q ∧ w.done < q := by
     intro q hq'; have := h4 q hq'
     cases hpc : w.pc <;> simp only [hpc, midPc] at hm this <;> first | exact this | cases hm
-  refine ⟨?_, ?_, ?_, ?_, ?_, ?_, ?_⟩
+  refine ⟨?_, ?_, ?_, ?_, ?_, ?_⟩
   · cases hpc : w'.pc <;> simp only [hpc, midPc] at hm' ⊢ <;> first | (rw [hl]; exact e1) | cases hm'
   · cases hpc : w'.pc <;> simp only [hpc, midPc] at hm' ⊢ <;> first | (rw [hic, hd]; exact e2) | cases hm'
   · rw [hq, hd]; exact h3
@@ -202,7 +196,6 @@ theorem WInv_mid {cfg : Cfg} {w w' : Worker} (h : WInv cfg w) (hm : midPc w.pc =
     cases hpc : w'.pc <;> simp only [hpc, midPc] at hm' ⊢ <;> first | (rw [hic, hd]; exact e4 q hq') | cases hm'
   · rw [hb, hl]; exact h5
   · intro hh; rcases hh with hh | hh <;> rw [hh] at hm' <;> cases hm'
-  · intro hh; first | cases hh | (rw [hh] at hm'; cases hm')
 
 theorem WInv_loopTop {cfg : Cfg} (f : Bool) (w : Worker)
     (hs : ∃ items, (∀ e ∈ items, isItem e = true) ∧ w.log = .begin :: items)
@@ -213,26 +206,23 @@ theorem WInv_loopTop {cfg : Cfg} (f : Bool) (w : Worker)
   split
   · rename_i h0
     split
-    · refine ⟨?_, ?_, ?_, ?_, ?_, ?_, ?_⟩ <;> dsimp only
+    · refine ⟨?_, ?_, ?_, ?_, ?_, ?_⟩ <;> dsimp only
       · exact ⟨items, hi, hl⟩
       · exact hq
       · intro q hq'; have := hb q hq'; exact ⟨by unfold itemCount at *; dsimp only; omega, trivial⟩
       · intro _; simp [hl]
       · simp
-      · intro hh; first | cases hh | (rw [hh] at hm'; cases hm')
-    · refine ⟨?_, ?_, ?_, ?_, ?_, ?_, ?_⟩ <;> dsimp only [workerExit]
-      · exact ⟨items, hi, by rw [hl]⟩
+    · refine ⟨?_, ?_, ?_, ?_, ?_, ?_⟩ <;> dsimp only [workerEnding]
+      · exact ⟨items, hi, hl⟩
       · exact hq
       · intro q hq'; have := hb q hq'
         refine ⟨?_, trivial⟩
         unfold itemCount at *; dsimp only
-        simp only [List.filter_append, List.length_append]
-        simp [isItem]; omega
+        omega
       · intro _; simp [hl]
       · simp
-      · intro hh; first | cases hh | (rw [hh] at hm'; cases hm')
   · rename_i h0
-    refine ⟨?_, ?_, ?_, ?_, ?_, ?_, ?_⟩ <;> dsimp only
+    refine ⟨?_, ?_, ?_, ?_, ?_, ?_⟩ <;> dsimp only
     · exact ⟨items, hi, hl⟩
     · exact hc
     · exact hq
@@ -243,13 +233,12 @@ theorem WInv_loopTop {cfg : Cfg} (f : Bool) (w : Worker)
       · exfalso; apply h0; rw [hq, hq']; simp; omega
     · intro _; simp [hl]
     · simp
-    · intro hh; first | cases hh | (rw [hh] at hm'; cases hm')
 
 /-! ### summary of a worker step -/
 
 theorem workerLoopTop_facts (f : Bool) (w : Worker) :
     (workerLoopTop f w).wid = w.wid ∧ (workerLoopTop f w).bf = w.bf ∧ (workerLoopTop f w).pc ≠ .notStarted := by
-  unfold workerLoopTop workerExit
+  unfold workerLoopTop workerEnding
   split
   · split <;> simp
   · simp
@@ -302,7 +291,7 @@ theorem stepW_summary {s s' : St} {wid : Nat} (h : stepW s wid = some s') :
     · cases h
     · -- bfClear
       split at h <;> simp only [Option.some.injEq] at h <;> subst h
-      · refine summary_mk hg (by simp [hpc]) (by simp [hpc]) rfl (by simp [workerExit]) ?_ rfl rfl rfl rfl rfl rfl rfl (Or.inl rfl) (by simp [hpc, gone])
+      · refine summary_mk hg (by simp [hpc]) (by simp [hpc]) rfl (by simp [workerEnding]) ?_ rfl rfl rfl rfl rfl rfl rfl (Or.inl rfl) (by simp [hpc, gone])
         intro hw; refine ⟨WInv_begin_crash hw hpc, ?_⟩
         intro hb; rw [hw.bfPre (Or.inr hpc)] at hb; cases hb
       · refine summary_mk hg (by simp [hpc]) (by simp [hpc]) rfl (by simp) ?_ rfl rfl rfl rfl rfl rfl rfl (Or.inl rfl) (by simp [hpc, gone])
@@ -314,7 +303,7 @@ theorem stepW_summary {s s' : St} {wid : Nat} (h : stepW s wid = some s') :
             (workerLoopTop_facts _ _).2.2 ?_ rfl rfl rfl rfl rfl rfl rfl (Or.inl rfl) (by simp [hpc, gone])
       intro hw
       refine ⟨?_, fun _ => by rw [(workerLoopTop_facts _ _).2.1]⟩
-      obtain ⟨h1, h2, h3, h4, h5, h6, h7⟩ := hw
+      obtain ⟨h1, h2, h3, h4, h5, h6⟩ := hw
       simp only [hpc] at h1 h2
       apply WInv_loopTop
       · exact h1
@@ -326,11 +315,11 @@ theorem stepW_summary {s s' : St} {wid : Nat} (h : stepW s wid = some s') :
       split at h
       · cases h
       · simp only [Option.some.injEq] at h; subst h
-        refine summary_mk hg (by simp [hpc]) (by simp [hpc]) rfl (by simp [workerExit]) ?_ rfl rfl rfl rfl rfl rfl rfl (Or.inl rfl) (by simp [hpc, gone])
-        intro hw; exact ⟨WInv_get_none hw (Or.inl hpc), fun hb => hb⟩
+        refine summary_mk hg (by simp [hpc]) (by simp [hpc]) rfl (by simp [workerEnding]) ?_ rfl rfl rfl rfl rfl rfl rfl (Or.inl rfl) (by simp [hpc, gone])
+        intro hw; exact ⟨WInv_retire_ending hw (Or.inl hpc), fun hb => hb⟩
       · rename_i i r _
         split at h <;> simp only [Option.some.injEq] at h <;> subst h
-        · refine summary_mk hg (by simp [hpc]) (by simp [hpc]) rfl (by simp [workerExit]) ?_ rfl rfl rfl rfl rfl rfl rfl (Or.inl rfl) (by simp [hpc, gone])
+        · refine summary_mk hg (by simp [hpc]) (by simp [hpc]) rfl (by simp [workerEnding]) ?_ rfl rfl rfl rfl rfl rfl rfl (Or.inl rfl) (by simp [hpc, gone])
           intro hw; exact ⟨WInv_item_crash i hw hpc, fun hb => hb⟩
         · refine summary_mk hg (by simp [hpc]) (by simp [hpc]) rfl (by simp) ?_ rfl rfl rfl rfl rfl rfl rfl (Or.inl rfl) (by simp [hpc, gone])
           intro hw; exact ⟨WInv_item_ok i hw hpc, fun hb => hb⟩
@@ -356,7 +345,7 @@ theorem stepW_summary {s s' : St} {wid : Nat} (h : stepW s wid = some s') :
             (workerLoopTop_facts _ _).2.2 ?_ rfl rfl rfl rfl rfl rfl rfl (Or.inl rfl) (by simp [hpc, gone])
         intro hw
         refine ⟨?_, fun hb => by rw [(workerLoopTop_facts _ _).2.1]; exact hb⟩
-        obtain ⟨h1, h2, h3, h4, h5, h6, h7⟩ := hw
+        obtain ⟨h1, h2, h3, h4, h5, h6⟩ := hw
         simp only [hpc] at h1 h2 h4
         apply WInv_loopTop
         · exact h1
@@ -374,7 +363,7 @@ theorem stepW_summary {s s' : St} {wid : Nat} (h : stepW s wid = some s') :
             (workerLoopTop_facts _ _).2.2 ?_ rfl rfl rfl rfl rfl rfl rfl (Or.inl rfl) (by simp [hpc, gone])
           intro hw
           refine ⟨?_, fun hb => by rw [(workerLoopTop_facts _ _).2.1]; exact hb⟩
-          obtain ⟨h1, h2, h3, h4, h5, h6, h7⟩ := hw
+          obtain ⟨h1, h2, h3, h4, h5, h6⟩ := hw
           simp only [hpc] at h1 h2 h4
           apply WInv_loopTop
           · exact h1
@@ -383,19 +372,15 @@ theorem stepW_summary {s s' : St} {wid : Nat} (h : stepW s wid = some s') :
           · exact h2
           · intro q hq; have := h4 q hq; show w.done + 1 ≤ q; omega
     · -- retire
-      split at h <;> simp only [Option.some.injEq] at h <;> subst h
-      · rename_i hjt
-        refine summary_mk hg (by simp [hpc]) (by simp [hpc]) rfl (by simp) ?_ rfl rfl rfl rfl rfl rfl rfl
-          (Or.inr ⟨by rw [hwid], rfl, by simp [hpc, gone]⟩) (by simp [hpc, gone])
-        intro hw; exact ⟨WInv_retire_ending hw hpc hjt, fun hb => hb⟩
-      · refine summary_mk hg (by simp [hpc]) (by simp [hpc]) rfl (by simp [workerExit]) ?_ rfl rfl rfl rfl rfl rfl rfl
-          (Or.inr ⟨by rw [hwid], rfl, by simp [hpc, gone]⟩) (by simp [hpc, gone])
-        intro hw; exact ⟨WInv_get_none hw (Or.inr (Or.inl hpc)), fun hb => hb⟩
+      simp only [Option.some.injEq] at h; subst h
+      refine summary_mk hg (by simp [hpc]) (by simp [hpc]) rfl (by simp [workerEnding]) ?_ rfl rfl rfl rfl rfl rfl rfl
+        (Or.inr ⟨by rw [hwid], rfl, by simp [hpc, gone]⟩) (by simp [hpc, gone])
+      intro hw; exact ⟨WInv_retire_ending hw (Or.inr hpc), fun hb => hb⟩
     · -- ending
       simp only [Option.some.injEq] at h; subst h
       refine summary_mk hg (by simp [hpc]) (by simp [hpc]) rfl (by simp [workerExit]) ?_ rfl rfl rfl rfl rfl rfl rfl
         (Or.inl rfl) (fun _ => rfl)
-      intro hw; exact ⟨WInv_get_none hw (Or.inr (Or.inr hpc)), fun hb => hb⟩
+      intro hw; exact ⟨WInv_get_none _ hw hpc, fun hb => hb⟩
     · cases h
 
 end WindVerif.Pool
